@@ -45,6 +45,7 @@ PROP = {
             {'run': 'TestVerifC02Order', 'quick': 10000, 'thorough': 100000},
             {'run': 'TestVerifC02Tree', 'quick': 3000, 'thorough': 20000},
             {'run': 'TestVerifC02TreeBuiltin', 'quick': 3000, 'thorough': 20000},
+            {'run': 'TestVerifC02TreeDims', 'quick': 3000, 'thorough': 20000},
         ],
     }],
     'manifest': {
